@@ -2,3 +2,8 @@ add("C03", "exploration", "runtime monitor: shape oracle over real engines + scr
     "Every (engine, first TTL, last TTL) pair in the tier's list is driven through the real TracerouteParallel/TracerouteSerial/ToHops with seeded network behaviours; a shape monitor compares the returned list with what the scripted driver recorded handing out. Held = no refutation on the executions observed; the quantifier over pairs is complete in the thorough tier (all 32640 pairs), the network behaviours are sampled.",
     "Trusts the scripted driver's own event log and the Go synctest clock; behaviours are sampled, not enumerated; Linux build only.",
     "DESIGN.md section 5 C03")
+
+add("C07", "exploration", "runtime monitor: reference merge fold over the scripted driver's hand-out log; exhaustive schedules to a bound in a virtual-time bubble + race-detector stress with injected yields",
+    "All reply tuples up to the tier's bound (n TTLs, K replies, 2n+3 delivery slots incl. ties with send instants) are enumerated and executed against the real TracerouteParallel; random schedules beyond the bound; a real-goroutine stress tier runs under the race detector with yields injected at the engine's only suspension points. Held = result equalled clip(fold(hand-out order)) on every execution.",
+    "Exhaustive only up to the stated bound; the fold oracle trusts the scripted driver's boundary log; the Go scheduler decides real interleavings in the stress tier.",
+    "DESIGN.md section 5 C07")
